@@ -115,6 +115,17 @@ impl Module for RecBank {
         block: &BlockInfo,
         request: BankQuery,
     ) -> AnyResult<Binary> {
+        // recorded (never faulted): which bank queries reached the configured module, with what
+        #[allow(deprecated)]
+        let payload = match &request {
+            BankQuery::Balance { address, denom } => format!("balance:{}:{}", address, denom),
+            BankQuery::AllBalances { address } => format!("all:{}", address),
+            BankQuery::Supply { denom } => format!("supply:{}", denom),
+            BankQuery::DenomMetadata { denom } => format!("meta:{}", denom),
+            BankQuery::AllDenomMetadata { .. } => "allmeta".to_string(),
+            other => format!("{:?}", other),
+        };
+        self.world.module_call_rec("bank.query", "", payload);
         self.inner.query(api, storage, querier, block, request)
     }
 
